@@ -41,6 +41,7 @@ type sGen struct {
 	defs    map[string]string
 	order   []string
 	safe    bool // avoid combinations known not to compile on the pinned tree
+	lastProps []string // property names of the object built last
 }
 
 func (g *sGen) prim() string { return sPrims[g.rng.Intn(len(sPrims))] }
@@ -84,6 +85,11 @@ func (g *sGen) objectFrom(depth int, sPropNames []string, maxProps int) string {
 	sb.WriteString("type: object\n")
 	n := 1 + g.rng.Intn(maxProps)
 	perm := g.rng.Perm(len(sPropNames))[:n]
+	var mine []string
+	for _, pi := range perm {
+		mine = append(mine, sPropNames[pi])
+	}
+	defer func() { g.lastProps = mine }() // nested objects built below must not overwrite it
 	var req []string
 	props := ""
 	for _, pi := range perm {
@@ -159,9 +165,25 @@ func genSchemaFamily(c *Ctx, filter func(string) bool) {
 		g := &sGen{rng: rand.New(rand.NewSource(c.Seed*15485863 + int64(i)*31 + 7)), defs: map[string]string{}, safe: true}
 		// base objects
 		nb := 1 + g.rng.Intn(2)
+		var taken []string
 		for k := 0; k < nb; k++ {
 			nm := fmt.Sprintf("Base%d", k)
-			g.define(nm, g.object(depth, true))
+			// the bases may meet in one allOf: their property names are disjoint
+			// (two members declaring one name with different types have no valid document)
+			var pool []string
+			for _, pn := range sPropNames {
+				used := false
+				for _, t := range taken {
+					if t == pn {
+						used = true
+					}
+				}
+				if !used {
+					pool = append(pool, pn)
+				}
+			}
+			g.define(nm, g.objectFrom(depth, pool, 4))
+			taken = append(taken, g.lastProps...)
 			g.schemas = append(g.schemas, nm)
 		}
 		switch i % 6 {
